@@ -155,6 +155,17 @@ def run(rep, tier, rng):
                                     dict(base, op=nm + "-small-operands", py=f"(a * 2.0**{e2}).{nm}(b * 2.0**{e2})", pyab=pyab, obs=repr(o)[:300]),
                                     (nm + "-small", e2, al, d, tuple(x), tuple(y), va, vb))
                     check_unchanged([a, b2], snaps, "binary operators / methods")
+                    # a pointer is an immutable VALUE: it does not follow later changes of the array it was made from
+                    arr_ = algs.fl(x).copy()
+                    p_arr = SemanticPointer(arr_, vocab=None if va is None else vocs[va], algebra=None if va is not None else A)
+                    before_ = p_arr.v.copy()
+                    arr_ += 1.0
+                    rep.case(("constructed-from-callers-array", al, d, tuple(x), va))
+                    rep.count("constructor-does-not-alias")
+                    if not np.array_equal(p_arr.v, before_):
+                        rep.violation("a Semantic Pointer changed when the caller modified the array it was constructed from",
+                                      {"case": {"alg": al, "d": d, "x": x}, "observed": p_arr.v.tolist(),
+                                       "python": PRE + f"arr = np.array({x}, float); p = SemanticPointer(arr); arr += 1.0\nassert np.array_equal(p.v, np.array({x}, float)), p.v\n"})
                     # ---- unary ------------------------------------------------
                     for p, vec, voc, nm in ((a, x, va, "a"), (b2, y, vb, "b")):
                         o = c.observe(lambda: -p)
